@@ -36,6 +36,7 @@ fn main() {
         "attrroute" => behave::run_attrroute(tier, seed, &mut out),
         "guardden" => exprs::run_guardden(tier, seed, &mut out),
         "entnames" => lit::run_entnames(&mut out),
+        "links" => path::run_links(tier, seed, &mut out),
         "determinism" => determinism::run(tier, seed, &mut out),
         "exprgen" => exprs::run_gen(tier, seed, &mut out),
         "exprval" => exprs::run_val(tier, seed, &mut out),
